@@ -70,24 +70,35 @@ theorem failing_transfer_rejects (feeOn : Bool) (s : St) (t : Txn) (r : CResult)
     unfold settle; unfold feeQueue at hq; simp only [hq]
   rw [this]
 
-/-- one transfer: the exact failure conditions. -/
+/-- `transferAmount` alone: the exact failure conditions. -/
+theorem transferCore_error_iff (a : Accts) (t : Transfer) :
+    (∃ e, transferCore a t = .error e) ↔
+      (t.amount ≠ 0 ∧ (t.dstCanon = false ∨ t.src = t.dst ∨ (get a t.src).balance < t.amount ∨
+        (get a t.dst).balance + t.amount ≥ u64)) := by
+  unfold transferCore transferCore0
+  by_cases h0 : t.amount = 0
+  · simp [h0]
+  · cases hd : t.dstCanon
+    · simp [h0]
+    · by_cases hsd : t.src = t.dst
+      · simp [h0, hsd]
+      · by_cases hins : (get a t.src).balance < t.amount
+        · simp [h0, hsd, hins]
+        · by_cases hov : (get a t.dst).balance + t.amount ≥ u64
+          · simp [h0, hsd, hins, hov]
+          · simp [h0, hsd, hins, hov]
+
+/-- one transfer as the engine performs it (`transferAmountWithAssert`): the exact failure conditions. -/
 theorem transfer_error_iff (a : Accts) (t : Transfer) :
     (∃ e, transfer a t = .error e) ↔
-      (get a t.src).balance + (get a t.dst).balance ≥ u64 ∨
-      (t.amount ≠ 0 ∧ (t.src = t.dst ∨ (get a t.src).balance < t.amount ∨ (get a t.dst).balance + t.amount ≥ u64)) := by
-  unfold transfer transferCore
-  by_cases hs : (get a t.src).balance + (get a t.dst).balance ≥ u64
-  · simp [hs]
-  · by_cases h0 : t.amount = 0
-    · simp [hs, h0]
-    · by_cases hsd : t.src = t.dst
-      · have hs' : ¬ (get a t.dst).balance + (get a t.dst).balance ≥ u64 := by rw [hsd] at hs; exact hs
-        simp [h0, hsd, hs']
-      · by_cases hins : (get a t.src).balance < t.amount
-        · simp [hs, h0, hsd, hins]
-        · by_cases hov : (get a t.dst).balance + t.amount ≥ u64
-          · simp [hs, h0, hsd, hins, hov]
-          · simp [hs, h0, hsd, hins, hov]
+      (get a t.src).balance + (if t.dstCanon then (get a t.dst).balance else 0) ≥ u64 ∨
+      (t.amount ≠ 0 ∧ (t.dstCanon = false ∨ t.src = t.dst ∨ (get a t.src).balance < t.amount ∨
+        (get a t.dst).balance + t.amount ≥ u64)) := by
+  unfold transfer
+  by_cases hs : (get a t.src).balance + (if t.dstCanon then (get a t.dst).balance else 0) ≥ u64
+  · rw [if_pos hs]; exact ⟨fun _ => Or.inl hs, fun _ => ⟨_, rfl⟩⟩
+  · rw [if_neg hs, transferCore_error_iff]
+    exact ⟨fun h => Or.inr h, fun h => h.elim (fun h' => absurd h' hs) id⟩
 
 /-- under the genesis invariant (all balances sum to the supply, far below 2^64) the pre-transfer
 sum check of `transferAmountWithAssert` can never fire. -/
@@ -108,8 +119,8 @@ theorem value_cap (feeOn : Bool) (s : St) (t : Txn) (r : CResult) (h : t.value >
 -- non-vacuity: a queue whose THIRD transfer overdraws is rejected although two succeeded
 def exS5 : St := { accts := [(3, ⟨1000, 4⟩), (7, ⟨50, 0⟩)], store := [(1, 1)] }
 def exT5 : Txn := { sender := 3, to := 7, toValid := true, value := 100, fee := 10, nonce := 5, typ := .sc }
-example : step true exS5 exT5 (.ok [.put 1 2] [⟨3, 7, 100⟩, ⟨7, 9, 40⟩, ⟨9, 3, 41⟩] []) = (exS5, .rejected) := by decide
-example : (step true exS5 exT5 (.ok [.put 1 2] [⟨3, 7, 100⟩, ⟨7, 9, 40⟩, ⟨9, 3, 40⟩] [])).2 = .success := by decide
+example : step true exS5 exT5 (.ok [.put 1 2] [⟨3, 7, 100, true⟩, ⟨7, 9, 40, true⟩, ⟨9, 3, 41, true⟩] []) = (exS5, .rejected) := by decide
+example : (step true exS5 exT5 (.ok [.put 1 2] [⟨3, 7, 100, true⟩, ⟨7, 9, 40, true⟩, ⟨9, 3, 40, true⟩] [])).2 = .success := by decide
 example : InRange exS5.accts := by intro p hp; simp [exS5] at hp; rcases hp with rfl | rfl <;> simp [u64]
 
 end ZChain.Ledger
